@@ -51,6 +51,7 @@ struct Result {
    bool deadlock = false, livelock = false;
    std::vector<Race> races;          ///< distinct races (by pc pair), at most 16
    std::vector<std::pair<int, uint64_t>> trace; ///< schedule: (task, events run) segments
+   std::vector<uint64_t> probe_hits;  ///< per reach probe: entries of that function by simulated tasks
 };
 
 /// one-time initialisation (symbol table of the executable)
@@ -63,6 +64,10 @@ const Result& result();
 /// events counted on the calling thread while no simulation is active (sequential calibration)
 uint64_t sequential_events();
 void reset_sequential_events();
+/// reach probes: address ranges [lo, hi) of functions of interest (entries by simulated tasks are counted)
+void set_probes(const std::vector<std::pair<uintptr_t, uintptr_t>>& ranges);
+/// address ranges of all functions whose demangled name contains `substring`
+std::vector<std::pair<uintptr_t, uintptr_t>> find_functions(const std::string& substring);
 /// symbol lookup (function or object containing addr), demangled; "" if unknown
 std::string symbolize(uintptr_t addr);
 
